@@ -49,9 +49,9 @@ P = {
     "C12": ("proof", "Theorems: the attribute token is exactly the source slice the scanner specification delimits with a bracket stack (via C08_tokenize_eq_spec); every emitted type item carries exactly its declaration's attribute texts, in order (C12_emit); render prints them one per line directly before the item. "
             "Partial: order preservation through cst_to_ast is compared, not proved; verbatim occurrence is checked on the emitted text for attributes with non-ASCII text and nested brackets.",
             "§7 C12", "tokenizer theorem + structure theorem + verbatim check on emitted text"),
-    "C13": ("proof", "Theorem: terminal enum variants and try_into_* methods carry the validated type string of that terminal (C13_use_sites). "
-            "Partial: the typeToString/tokenize round trip is not a theorem; every use site in the emitted text (incl. fields, through get_type) is re-tokenised and compared with the declaration (types nested to depth 5, near-duplicate terminal names).",
-            "§7 C13", "structure theorem + re-tokenisation of use sites"),
+    "C13": ("proof", "Theorems: the type string stored for a terminal is the concatenation of the tokens of the payload type as written — every path segment, `::`, `<`, `>`, `(`, `)` verbatim and `, ` per comma, any nesting depth (C13_type_tokens); the AST's tokens are the user's tokens in order (C13_type_order, from cst_to_ast order preservation); terminal enum variants and try_into_* methods carry the validated type string of that terminal (C13_use_sites). "
+            "Partial: field use sites go through get_type in the text emitter, which is tied by the correspondence: every use site in the emitted text is re-tokenised and compared with the declaration (types nested to depth 5, near-duplicate terminal names).",
+            "§7 C13", "token-for-token rendering theorems + re-tokenisation of use sites"),
     "C14": ("proof", "Theorems for both places where the crate iterates over a hash collection (all other HashMap/HashSet uses are get/contains/insert only): collecting the transition HashSet into an Oset gives the same vector for every iteration order (C14_ofList_perm); build_as_is returns the same table for every iteration order of TableBuilder's two maps, whose keys are proved distinct (C14_table_order_independent). Everything else in the model is a function of the input by construction. "
             "generate is additionally run 10× per text in fresh threads and in further processes (fresh RandomState) and compared byte for byte / structurally.",
             "§7 C14", "permutation-invariance theorems for both hash-iteration sites + repeated runs across threads/processes"),
